@@ -286,6 +286,18 @@ def chains(ctx, r, n):
             ol = OBDD('lambda %s: %s' % (','.join(order), spelled))
             check_equal('c18.lambda', dict(case, lam='lambda form of chain'),
                         ol, o, order, 'lambda form == expression form')
+            # the chain split over lines inside one pair of parentheses, the
+            # break directly after a keyword (no blank before the next name)
+            ml = '(' + spelled.replace(' and ', ' and\n') \
+                .replace(' or ', ' or\n').replace('not ', 'not\n') + ')'
+            LOG.sig['text:multiline'] += 1
+            o3 = OBDD(ml, list(order))
+            check_equal('c18.synonyms', dict(case, multiline=ml), o3, o,
+                        order, 'line breaks inside parentheses do not matter')
+            o4 = OBDD('lambda %s: %s' % (','.join(order), ml))
+            check_equal('c18.lambda', dict(case, multiline=ml,
+                                           lam='multi-line lambda'),
+                        o4, o, order, 'multi-line lambda form')
             LOG.mark_nontrivial((spelled, tuple(order)))
         except mon.PostBroken:
             raise
